@@ -25,9 +25,10 @@ import (
 )
 
 type progCase struct {
-	Desc jDesc `json:"desc"`
-	Toks []tok `json:"toks"`
-	raw  []byte
+	Desc  jDesc  `json:"desc"`
+	Toks  []tok  `json:"toks"`
+	Style string `json:"style"`
+	raw   []byte
 }
 
 type genFacts struct {
@@ -65,7 +66,9 @@ func topKeywords(toks []tok) []int {
 	return out
 }
 
-func progLayout(toks []tok, withDocs bool) []string {
+func progLayout(toks []tok, style string) []string {
+	withDocs := style != "" && style != "plain"
+	docGap := map[string]string{"docs": "docbt", "crlf": "doc2cr", "words": "docwords", "placeholder": "docph"}[style]
 	lay := make([]string, len(toks)+1)
 	top := map[int]bool{}
 	for _, k := range topKeywords(toks) {
@@ -77,7 +80,7 @@ func progLayout(toks []tok, withDocs bool) []string {
 		case top[i]:
 			lay[i] = "lf"
 			if withDocs {
-				lay[i] = "docbt"
+				lay[i] = docGap
 			}
 		case !punct[toks[i-1].S] && !punct[toks[i].S]:
 			lay[i] = "sp"
@@ -86,14 +89,21 @@ func progLayout(toks []tok, withDocs bool) []string {
 		}
 	}
 	if withDocs {
-		lay[0] = "docbt"
+		lay[0] = docGap
 	}
 	lay[len(toks)] = "lf"
+	if style == "crlf" {
+		for i := range lay {
+			if lay[i] == "lf" {
+				lay[i] = "crlf"
+			}
+		}
+	}
 	return lay
 }
 
-func renderProg(c *progCase, withDocs bool) string {
-	return render(c.Toks, progLayout(c.Toks, withDocs))
+func renderProg(c *progCase, style string) string {
+	return render(c.Toks, progLayout(c.Toks, style))
 }
 
 func runGenerator(genBin, file string, timeout time.Duration) (exit int, crashed, timedOut bool, stderr string) {
@@ -291,7 +301,7 @@ func cmdGen(args []string) int {
 	texts := make([]string, len(cases))
 	dirs := make([]string, len(cases))
 	for i, c := range cases {
-		texts[i] = renderProg(c, i%2 == 0)
+		texts[i] = renderProg(c, c.Style)
 		dirs[i] = fmt.Sprintf("p%d", i)
 	}
 	facts := genAndBuild(*work, *genBin, texts, dirs)
@@ -329,9 +339,9 @@ func cmdGen(args []string) int {
 		}
 		got := tr.M{"exit": f.exit, "crashed": f.crashed, "timed_out": f.timedOut, "nfiles": len(f.files), "pkgname": f.pkgname,
 			"deterministic": f.deterministic, "builds": f.builds, "ran": f.ran, "name": f.name,
-			"desc_equal":      f.ran && strings.TrimRight(f.desc, "\n") == strings.TrimRight(texts[i], "\n"),
+			"desc_equal":      f.ran && strings.TrimRight(f.desc, "\r\n") == strings.TrimRight(texts[i], "\r\n"),
 			"failing_members": failingMembers, "detail": firstLine(f.stderr + f.buildErr)}
-		ev := tr.M{"desc": json.RawMessage(mustField(c.raw, "desc")), "toks": c.Toks, "namechars": chars, "got": got}
+		ev := tr.M{"desc": json.RawMessage(mustField(c.raw, "desc")), "toks": c.Toks, "style": c.Style, "namechars": chars, "got": got}
 		log.Ev("C07", ev)
 	}
 	if err := log.Close(); err != nil {
@@ -370,6 +380,6 @@ func memberText(c *progCase, k int) string {
 		end = tops[k+1]
 	}
 	sub := append([]tok{{S: "interface"}, {S: "a.b"}}, c.Toks[start:end]...)
-	lay := progLayout(sub, false)
+	lay := progLayout(sub, "plain")
 	return strings.TrimSpace(render(sub[2:], append([]string{""}, lay[3:]...)))
 }
